@@ -22,7 +22,7 @@ BOUNDS = {'quick': {'n_steps': '1, 2, 3', 'iterations': '<= 3 per path (longer p
           'thorough': {'iterations': '<= 4', 'deformation types': 'all non-empty subsets'}}
 OUTSIDE = ['step budgets up to 2000 (the bookkeeping is iteration-local: every iteration is checked from the symbolic state left by the previous ones)',
            'the value of the overlap measure (C08) and the geometry of the single-atom move (C07)', 'the distribution of the random draws']
-STUBS = ['Chi2Calculator -> uninterpreted positive energy per evaluated configuration', 'move_mol_atom -> logged stub returning a fresh configuration',
+STUBS = ['CrossHair harness chx/c09.py: real accept_metropolis on symbolic floats incl. NaN (np.random.rand returns the symbolic u)', 'Chi2Calculator -> uninterpreted positive energy per evaluated configuration', 'move_mol_atom -> logged stub returning a fresh configuration',
          'np.random.* -> fresh symbolic draws', 'progress output (sys.stdout.write of a formatted float) -> swallowed; the formatted number is a placeholder']
 ASSUMPTIONS = ['energies > 0', 'exact real arithmetic']
 CASE_TIMEOUT = {'quick': 900, 'thorough': 3000}
@@ -38,10 +38,15 @@ def cases(tier):
             if n_steps > k:
                 continue
             cs.append({'name': 'sim%s/n_steps%d/K%d' % (''.join(map(str, sim)), n_steps, k), 'sim': list(sim), 'n_steps': n_steps, 'K': k})
+    # the acceptance rule on symbolic floats, including a measure that is not a number (CrossHair)
+    cs.append({'name': 'crosshair/metropolis_rule', 'fn': 'metropolis_rule', 'budget': 40 if tier == 'quick' else 200})
     return cs
 
 
 def run_case(case):
+    if case['name'].startswith('crosshair/'):
+        from symx.chrun import run_crosshair
+        return run_crosshair('chx/c09.py', case['fn'], case['budget'], kind='c09')
     from symx.core import explore, SymReal, SymBool, expr, Ctx, PathAbort
     import symx.core as core
     from symx import npx
@@ -239,6 +244,9 @@ def run_case(case):
 def replay(w):
     """Concrete: drive the real loop with a scripted random stream / energy table that realises the path, observing it
     through the module-level names the loop resolves at call time (Chi2Calculator, accept_metropolis, move_mol_atom)."""
+    if w.get('kind') == 'c09':
+        from symx.chrun import replay_crosshair
+        return replay_crosshair(w)
     import gaddlemaps._backend as be
     sim, n_steps = tuple(w['sim']), w['n_steps']
     choices, decisions, energies = w['choices'], w['decisions'], w.get('energies')
